@@ -85,12 +85,13 @@ func (e *Enc) entryEnv(fn *ssa.Function, args []Val, st *State) *evalEnv {
 }
 
 // VerifyFunc generates and discharges the obligations of one function against its contract.
-func VerifyFunc(L *Loaded, fn *ssa.Function, con *FuncContract, opt runOpts) *UnitResult {
+func VerifyFunc(L *Loaded, fn *ssa.Function, con *FuncContract, opt runOpts) (res *UnitResult) {
 	t0 := time.Now()
 	e := NewEnc(L)
 	e.top = fn
 	e.ctx = shortFuncName(fn)
 	ur := &UnitResult{Name: e.ctx, Func: e.ctx, Props: map[string][]string{}, fn: fn, con: con}
+	res = ur
 	defer func() {
 		if r := recover(); r != nil {
 			ur.Err = fmt.Sprint(r)
@@ -152,8 +153,12 @@ func (e *Enc) runBody(fn *ssa.Function, con *FuncContract, ur *UnitResult) {
 	st := State{reach: tb.True(), heap: map[string]*Term{}}
 	args := e.setupParams(fn)
 	entry := st.clone()
-	if fn.Signature.Recv() != nil && len(args) > 0 {
-		e.applyTypeInvs(nil, &entry, fn.Params[0].Type(), args[0].t(), "assume", tb.True(), token.NoPos)
+	e.bindFreeVars(fn)
+	e.entryPreconditions(fn, args, &entry)
+	for i, p := range fn.Params {
+		if i < len(args) {
+			e.applyTypeInvs(nil, &entry, p.Type(), args[i].t(), "assume", tb.True(), token.NoPos)
+		}
 	}
 	if con != nil {
 		env := e.entryEnv(fn, args, &entry)
@@ -169,7 +174,7 @@ func (e *Enc) runBody(fn *ssa.Function, con *FuncContract, ur *UnitResult) {
 		q := &Query{Name: e.ctx + "#cover:requires", Kind: "cover", NAssume: len(e.assumes), Goal: tb.True(), Cover: true}
 		e.queries = append(e.queries, q)
 	}
-	res, out, fr := e.encodeFunc(fn, args, nil, st, nil, con, nil)
+	res, out, fr := e.encodeFunc(fn, args, e.freeVarVals, st, nil, con, nil)
 	e.topFr = fr
 	if con == nil {
 		return
@@ -223,7 +228,7 @@ func (e *Enc) finish(ur *UnitResult, opt runOpts) {
 			continue
 		}
 		switch q.Kind {
-		case "ensures", "loop-entry", "loop-preserved", "callpre", "cover", "contract-target", "frame", "closure", "lemma", "assert", "typeinv":
+		case "ensures", "loop-entry", "loop-preserved", "callpre", "cover", "contract-target", "frame", "closure", "lemma", "assert", "typeinv", "law":
 			ur.Props[q.Name] = con.props
 		default:
 			ur.Props[q.Name] = con.safetyProps
@@ -487,4 +492,175 @@ func (e *Enc) axiomTypesPresent(ax *Lemma) bool {
 		}
 	}
 	return true
+}
+
+// VerifyEntry verifies one registered function literal (operator implementation, static function, method) as a
+// unit of its own: free variables are unconstrained, the preconditions are those the dispatch code guarantees
+// (dynamic operand types for operator tables, the declared number of stack arguments for functions and methods).
+func VerifyEntry(L *Loaded, t *tableEntry, tab *FuncContract, own *FuncContract, opt runOpts) (res *UnitResult) {
+	t0 := time.Now()
+	e := NewEnc(L)
+	fn := t.fn
+	e.top = fn
+	e.ctx = t.unitName()
+	con := &FuncContract{pkg: tab.pkg, key: tab.key, kind: "func", props: tab.props, safetyProps: tab.safetyProps, invs: map[int][]clause{}, opts: map[string]string{}}
+	if own == tab {
+		con.props, con.safetyProps = nil, nil
+	}
+	if own != nil {
+		con.requires, con.ensures, con.invs, con.assigns, con.assignsNone, con.asserts = own.requires, own.ensures, own.invs, own.assigns, own.assignsNone, own.asserts
+		con.props = append(append([]string{}, con.props...), own.props...)
+		con.safetyProps = append(append([]string{}, con.safetyProps...), own.safetyProps...)
+		own.used = true
+	}
+	ur := &UnitResult{Name: e.ctx, Func: e.ctx, Props: map[string][]string{}, fn: fn, con: con}
+	res = ur
+	defer func() {
+		if r := recover(); r != nil {
+			ur.Err = fmt.Sprint(r)
+			if opt.debug {
+				panic(r)
+			}
+		}
+	}()
+	e.safety = len(con.safetyProps) > 0 || opt.sweep
+	e.topConPkg = con.pkg
+	e.entry = t
+	e.runBody(fn, con, ur)
+	ur.EncodeS = time.Since(t0).Seconds()
+	e.finish(ur, opt)
+	return ur
+}
+
+// entryPreconditions: what the dispatching code establishes before it calls a registered function literal.
+func (e *Enc) entryPreconditions(fn *ssa.Function, args []Val, st *State) {
+	t := e.entry
+	if t == nil {
+		return
+	}
+	tb := e.tb
+	typed := func(v Val, ty types.Type) {
+		if ty == nil {
+			return
+		}
+		e.assume(tb.True(), tb.IsBox(e.typeKey(ty), e.sortOf(ty), v.t()))
+	}
+	validStack := func(v Val, ty types.Type) (size *Term) {
+		s, u := e.structOf(ty)
+		var storage, offs *Term
+		for i := 0; i < u.NumFields(); i++ {
+			switch u.Field(i).Name() {
+			case "storage":
+				storage = tb.Field(s, i, v.t())
+			case "offs":
+				offs = tb.Field(s, i, v.t())
+			case "size":
+				size = tb.Field(s, i, v.t())
+			}
+		}
+		if storage == nil || offs == nil || size == nil {
+			return nil
+		}
+		// storage != nil, 0 <= offs, 0 <= size, offs+size <= len(storage.data)
+		var stType types.Type
+		for i := 0; i < u.NumFields(); i++ {
+			if u.Field(i).Name() == "storage" {
+				stType = u.Field(i).Type().Underlying().(*types.Pointer).Elem()
+			}
+		}
+		ss, su := e.structOf(stType)
+		data := tb.Select(e.reg(st, e.fieldReg(ss, su, 0)), storage)
+		e.assumeWF(tb.True(), su.Field(0).Type(), data)
+		e.assume(tb.True(), tb.And(tb.Gt(storage, tb.Int(0)), tb.Le(tb.Int(0), offs), tb.Le(tb.Int(0), size), tb.Le(tb.Add(offs, size), tb.SLen(data))))
+		// the argument slots hold values (never a nil interface)
+		if sl, ok := su.Field(0).Type().Underlying().(*types.Slice); ok {
+			if _, isIface := sl.Elem().Underlying().(*types.Interface); isIface {
+				i := tb.BoundVar("si", "Int")
+				ad := &Addr{elem: true, ref: tb.SRef(data), idx: tb.Add(tb.SOff(data), tb.Add(offs, i)), off: tb.SOff(data), rel: tb.Add(offs, i), root: sl.Elem()}
+				e.assume(tb.True(), tb.Forall([]*Term{i}, tb.Imp(tb.And(tb.Le(tb.Int(0), i), tb.Lt(i, size)), tb.Not(tb.Eq(e.elemRead(e.reg(st, e.elemReg(sl.Elem())), ad), tb.NilIface())))))
+				e.modelled("stack argument slots hold non-nil values")
+			}
+		}
+		return size
+	}
+	isStack := func(ty types.Type) bool {
+		n, ok := ty.(*types.Named)
+		return ok && n.Obj().Name() == "Stack" && n.Obj().Pkg() != nil && strings.HasSuffix(n.Obj().Pkg().Path(), "/funcGen")
+	}
+	// closures get their free variables first in fn.Params? no: FreeVars are separate; Params are the declared ones
+	for i, p := range fn.Params {
+		if isStack(p.Type()) {
+			size := validStack(args[i], p.Type())
+			if size == nil {
+				continue
+			}
+			switch t.kind {
+			case "static":
+				if t.args >= 0 {
+					e.assume(tb.True(), tb.Eq(size, tb.Int(int64(t.args))))
+				} else if t.argsMax > 0 {
+					e.assume(tb.True(), tb.And(tb.Le(tb.Int(int64(t.argsMin)), size), tb.Le(size, tb.Int(int64(t.argsMax)))))
+				}
+			case "method":
+				if t.args >= 0 {
+					e.assume(tb.True(), tb.Eq(size, tb.Int(int64(t.args+1))))
+				} else if t.argsMax > 0 {
+					e.assume(tb.True(), tb.And(tb.Le(tb.Int(int64(t.argsMin)), size), tb.Le(size, tb.Int(int64(t.argsMax)))))
+				} else {
+					e.assume(tb.True(), tb.Ge(size, tb.Int(1)))
+				}
+			}
+		}
+	}
+	switch t.kind {
+	case "binop":
+		// func(st, a, b)
+		if len(fn.Params) == 3 {
+			typed(args[1], t.t1)
+			typed(args[2], t.t2)
+		}
+	case "unop":
+		if len(fn.Params) == 1 {
+			typed(args[0], t.t1)
+		}
+	case "op":
+		// derived operator closures: operands are arbitrary non-nil values
+		for i, p := range fn.Params {
+			if _, ok := p.Type().Underlying().(*types.Interface); ok {
+				e.assume(tb.True(), tb.Not(tb.Eq(args[i].t(), tb.NilIface())))
+			}
+		}
+	}
+	e.modelled("registered function literals are verified under the preconditions their dispatcher establishes (operand types of the table entry; declared stack arity)")
+}
+
+// bindFreeVars gives the free variables of a function literal verified on its own unconstrained values: a captured
+// variable is a cell that exists at entry and holds any well-typed value.
+func (e *Enc) bindFreeVars(fn *ssa.Function) {
+	e.freeVarVals = nil
+	for _, fv := range fn.FreeVars {
+		t := e.tb.Const("fv_"+fv.Name(), e.sortOf(fv.Type()))
+		e.assumeWF(e.tb.True(), fv.Type(), t)
+		if pt, ok := fv.Type().Underlying().(*types.Pointer); ok {
+			e.assume(e.tb.True(), e.tb.Gt(t, e.tb.Int(0)))
+			if _, isFn := pt.Elem().Underlying().(*types.Signature); isFn {
+				e.assume(e.tb.True(), e.tb.Not(e.tb.Eq(e.tb.Select(e.regInit(nil, e.ptrReg(pt.Elem())), t), e.tb.Const("nilFn", "Fn"))))
+				e.modelled("captured function values are non-nil")
+			}
+		}
+		if _, ok := fv.Type().Underlying().(*types.Signature); ok {
+			e.assume(e.tb.True(), e.tb.Not(e.tb.Eq(t, e.tb.Const("nilFn", "Fn"))))
+			e.modelled("captured function values are non-nil")
+		}
+		e.freeVarVals = append(e.freeVarVals, Val{T: []*Term{t}})
+	}
+	// distinct cells
+	for i := range e.freeVarVals {
+		for j := i + 1; j < len(e.freeVarVals); j++ {
+			a, b := e.freeVarVals[i].t(), e.freeVarVals[j].t()
+			if a.sort == RefSort && b.sort == RefSort {
+				e.assume(e.tb.True(), e.tb.Not(e.tb.Eq(a, b)))
+			}
+		}
+	}
 }
